@@ -11,6 +11,9 @@ def _kf1_vc(case, msg):
 
 
 def run(ctx):
+    from vf.pyvc import crosscheck_sym
+
+    crosscheck_sym.guard(ctx)  # the symbolic-shape tensor layer against real torch, before the clauses that rest on it
     ctx.known_match.update(C10_rt.KNOWN_MATCH)
     rt_pred = ctx.known_match.get("KF-C10-1")
     ctx.known_match["KF-C10-1"] = lambda case, msg: _kf1_vc(case, msg) if not isinstance(case, dict) or "ref_0_0_0" in case else (rt_pred(case, msg) if rt_pred else False)
